@@ -204,7 +204,7 @@ def override_order(overrides: list[str], trace: list) -> list[str]:
     return sorted(overrides, key=lambda o: (first.get(o, 10**9), o))
 
 
-def case_term(job: dict, bi: int, b: dict, variant: str = VARIANT) -> tuple[str, dict]:
+def case_term(job: dict, bi: int, b: dict, variant: str = VARIANT, ov_order: list[str] | None = None) -> tuple[str, dict]:
     """Coq term of type Run.C10.case for build number bi of the job, plus a small description."""
     ns, pf, desc = job.get("ns", "ns"), job.get("pack_format", "48"), job.get("desc", "d")
     f = b["facts"]
@@ -217,7 +217,7 @@ def case_term(job: dict, bi: int, b: dict, variant: str = VARIANT) -> tuple[str,
     cfg = f"(mkCfg {coq_str(ns)} {coq_str(ff)} {coq_str(cert_text)} {coq_str(nm['LOAD'])} {coq_str(nm['TICK'])})"
     root = f["root"]
     statics = [coq_list(coq_str(c) for c in abs_to_model(s, root)) for s in f.get("statics", [])]
-    overrides = override_order(f.get("overrides", []), b["trace"])
+    overrides = ov_order if ov_order is not None else override_order(f.get("overrides", []), b["trace"])
     if f.get("copy"):
         snap = f["copy_tree"]
         top: dict = {}
@@ -509,6 +509,33 @@ def run_histories(prop: str, jobs: list[dict], variant: str = VARIANT, prefix: s
     for rec in recs:
         if "term_index" in rec:
             rec["code"] = codes[rec["term_index"]]
+    # The override folders are deleted in the iteration order of a Python *set of Paths*
+    # (compiling.py: `for folder in overrides_folders - {namespace_folder}`), which depends on the
+    # hash of the (temporary) output path.  The harness recovers that order from the first deletion
+    # seen per folder; folders never touched (absent, or the build stopped earlier) leave it
+    # undetermined.  Build.run takes the order as part of the header and every theorem quantifies
+    # over all headers, so a case agrees with the model iff SOME order consistent with the
+    # observations reproduces the run: retry the remaining permutations before reporting.
+    import itertools
+    retry = []
+    for rec in recs:
+        if rec.get("code") and "info" in rec and len(rec["info"]["overrides"]) >= 2:
+            base = rec["info"]["overrides"]
+            for perm in itertools.permutations(base):
+                if list(perm) != base:
+                    try:
+                        t, _ = case_term(rec["job"], rec["bi"], rec["build"], variant, ov_order=list(perm))
+                    except Unmodelled:
+                        continue
+                    retry.append((rec, list(perm), t))
+    if retry:
+        rcodes, rerrs = eval_codes(prop, [t for _, _, t in retry], prefix=prefix + "_perm")
+        errs += rerrs
+        for (rec, perm, _), c in zip(retry, rcodes):
+            if c == 0 and rec["code"]:
+                rec["code"] = 0
+                rec["info"]["overrides"] = perm
+                rec["info"]["override_order_inferred_by_retry"] = True
     return recs, errs
 
 
